@@ -12,7 +12,7 @@
 From Coq Require Import String.
 From Coq Require Import List NArith Bool Lia.
 From HS Require Import Base.Prelude Model.Value Model.Escape Model.Version Model.Json Model.ZincDump Model.ZincParse.
-From HS Require Import Proofs.EscapeP Proofs.JsonP Proofs.ZincParseP Proofs.ZincDumpP Proofs.ZincNumP Proofs.ZincListP Proofs.ZincGridP Proofs.ZincDictP Proofs.ZincMetaP Proofs.ZincNestP Proofs.JsonGridP Proofs.JsonNestP Proofs.JsonReadP Proofs.JsonVerP Proofs.ZincV2P Proofs.ZincMeta2P Proofs.ZincDateP Proofs.ZincDateTimeP.
+From HS Require Import Proofs.EscapeP Proofs.JsonP Proofs.ZincParseP Proofs.ZincDumpP Proofs.ZincNumP Proofs.ZincListP Proofs.ZincGridP Proofs.ZincDictP Proofs.ZincMetaP Proofs.ZincNestP Proofs.JsonGridP Proofs.JsonNestP Proofs.JsonReadP Proofs.JsonVerP Proofs.ZincV2P Proofs.ZincMeta2P Proofs.ZincDateP Proofs.ZincDateTimeP Proofs.ZincDateTimeSpP.
 Import ListNotations.
 Open Scope N_scope.
 
@@ -183,13 +183,13 @@ Qed.
    reading and the JSON reading of one written date-time are the same value *)
 Theorem C07_datetime_both_formats : forall f g v3 pre3 y m d h mi s us off zn sg hh mm,
   iso_offset off = off_text sg hh mm -> dt_ok y m d h mi s us sg hh mm -> tzname_ok zn ->
-  whole_minutes off -> zn <> [] -> forallb is_tzname_char zn = true ->
+  whole_minutes off ->
   let w := VDateTime y m d h mi s us off (ZName zn) in
   let raw := VDateTimeRaw (iso_datetime y m d h mi s us off) (Some zn) in
   (exists t, zdump (S f) false w = Ok t /\ forall rest, delim rest -> p_scalar (S g) v3 (t ++ rest) = Some (Ok raw, rest)) /\
   (exists j, jdump_scalar pre3 w = Ok (JStr j) /\ jparse_str pre3 j = Ok raw).
 Proof.
-  intros f g v3 pre3 y m d h mi s us off zn sg hh mm Eo Hok Hz Hw Hne Hc w raw. split.
+  intros f g v3 pre3 y m d h mi s us off zn sg hh mm Eo Hok Hz Hw w raw. destruct (tzname_ok_json zn Hz) as [Hne Hc]. split.
   - exists (iso_datetime y m d h mi s us off ++ 32 :: zn)%list. split; [reflexivity|]. intros rest Hd.
     apply (datetime_written_read f g v3 y m d h mi s us off zn sg hh mm _ rest Eo Hok Hz Hd). reflexivity.
   - exists (116 :: 58 :: iso_datetime y m d h mi s us off ++ 32 :: zn)%list. split; [reflexivity|].
